@@ -21,7 +21,7 @@ from c10 import (IMPORTS as IMPORTS0, DICT_IMPORTS, coq_codes, corr_term, dict_d
                  job_replay_info, make_jobs, run_jobs)
 
 IMPORTS = IMPORTS0 + "\nFrom XV Require Import Proofs.ParserDoc."
-EXTRAS_C15 = ["poly", "wildknown", "wrappers", "required", "wildtail", "anytype", "noinitwild", "fixed", "textattr", "union"]
+EXTRAS_C15 = ["listenum", "compound", "allprims", "poly", "wildknown", "wrappers", "required", "wildtail", "anytype", "noinitwild", "fixed", "textattr", "union"]
 DOCUMENTED = ("ParserError", "ConverterError", "XmlContextError", "XmlHandlerError")
 
 SITE_CLASS = {
